@@ -919,7 +919,16 @@ class Interp:
         finally:
             inner_rets = fr.rets
             fr.rets = saved
-            fr.loops.pop()
+            lp_ = fr.loops.pop()
+        if e.get("src") == "Loop" and not lp_["brk"] and inner_rets:
+            # `loop { .. return x .. }` without break: the only way out is one of the returns (of some iteration,
+            # evaluated on the havocked state)
+            for pc_, v_, _env in inner_rets:
+                fr.out.effects.append((pc_, "loop_return", (v_,), {"sp": e.get("sp"), "fn": fr.path}))
+            fr.rets = saved + inner_rets
+            return None
+        for pc_, v_, _env in inner_rets:
+            fr.out.effects.append((pc_, "loop_return", (v_,), {"sp": e.get("sp"), "fn": fr.path}))
         if inner_rets:
             self.note(fr, "return inside an unmodelled loop", e)
         return (UNIT, env)
